@@ -35,12 +35,8 @@ func readBindings(b []byte) (out []c18Binding, parsed bool, nleases int) {
 	return
 }
 
-// fileNet1LAN reads net1.lan of a lease file with the generic reader.
-func fileNet1LAN(b []byte) (netip.Prefix, bool) {
-	var doc map[string]interface{}
-	if err := yaml.Unmarshal(b, &doc); err != nil || doc == nil {
-		return netip.Prefix{}, false
-	}
+// net1LAN reads net1.lan of a parsed lease file.
+func net1LAN(doc map[string]interface{}) (netip.Prefix, bool) {
 	n1, _ := doc["net1"].(map[interface{}]interface{})
 	p, err := netip.ParsePrefix(fmt.Sprint(n1["lan"]))
 	return p, err == nil
@@ -48,9 +44,14 @@ func fileNet1LAN(b []byte) (netip.Prefix, bool) {
 
 // readBindingsOrdered returns the allocated entries in file order.
 func readBindingsOrdered(b []byte) (out []c18Binding, parsed bool, nleases int) {
-	var doc map[string]interface{}
+	out, parsed, nleases, _ = readLeaseFile(b)
+	return
+}
+
+// readLeaseFile parses the file once: allocated entries in file order, lease count, the generic document.
+func readLeaseFile(b []byte) (out []c18Binding, parsed bool, nleases int, doc map[string]interface{}) {
 	if err := yaml.Unmarshal(b, &doc); err != nil || doc == nil {
-		return nil, false, 0
+		return nil, false, 0, nil
 	}
 	ls, _ := doc["leases"].([]interface{})
 	ints := func(v interface{}) string {
@@ -88,7 +89,7 @@ func readBindingsOrdered(b []byte) (out []c18Binding, parsed bool, nleases int) 
 		}
 		out = append(out, bd)
 	}
-	return out, true, nleases
+	return out, true, nleases, doc
 }
 
 func bindingSet(b []c18Binding) map[c18Binding]bool {
@@ -315,7 +316,8 @@ func c18Faults(tb drv.TB, rec *drv.Rec, sub string, c c18Case) {
 		if outcome == "intact" && len(loaded) != len(orig) {
 			outcome = "subset"
 		}
-		inFile, parsed, nl := readBindings(damaged)
+		ordered, parsed, nl, doc := readLeaseFile(damaged)
+		inFile := ordered
 		if parsed { // whatever was loaded must be an entry of the file that was read (differential against the independent reader)
 			fileSet := bindingSet(inFile)
 			for _, b := range loaded {
@@ -328,9 +330,8 @@ func c18Faults(tb drv.TB, rec *drv.Rec, sub string, c c18Case) {
 		if parsed && len(loaded) > 0 {
 			// ... and, when anything was loaded at all, every entry of that file that is valid by the loader's own
 			// rules (allocated, client id, address inside the home LAN; the last entry of a client id wins)
-			ordered, _, _ := readBindingsOrdered(damaged)
 			want := map[string]c18Binding{}
-			fileLAN, lanOK := fileNet1LAN(damaged) // the loader filters by the LAN the file itself declares
+			fileLAN, lanOK := net1LAN(doc) // the loader filters by the LAN the file itself declares
 			for _, b := range ordered {
 				ip, perr := netip.ParseAddr(b.IP)
 				if !lanOK || b.CID == "" || perr != nil || !home.Contains(ip) || !fileLAN.Contains(ip) {
@@ -459,7 +460,7 @@ func TestC18(t *testing.T) {
 	rec := drv.For("C18", c18Rule)
 	drv.Prop(t, rec, "restart", 150, 8000, func(t *rapid.T) c18Case { return c18Case{Hist: genAckOnly(t)} },
 		func(tb drv.TB, c c18Case) { c18Restart(tb, rec, "restart", c) })
-	drv.Prop(t, rec, "faults", 1, 40, func(t *rapid.T) c18Case {
+	drv.Prop(t, rec, "faults", 1, 10, func(t *rapid.T) c18Case {
 		return c18Case{Hist: genAckOnly(t), Seed: rapid.Uint64().Draw(t, "seed")}
 	}, func(tb drv.TB, c c18Case) { c18Faults(tb, rec, "faults", c) })
 	_ = strings.TrimSpace
